@@ -52,6 +52,10 @@ func (s *Scanner) reset(r io.Reader) {
 	}
 	s.r.eof = false
 	s.idx = 0
+	// the scanner is reused through the parser pool: the previous text must not decide how
+	// a leading '/' or a dotted identifier of this one is read
+	s.preToken = 0
+	s.checkDOT = false
 }
 
 // Scan returns the next token and position from the underlying reader.
@@ -141,8 +145,10 @@ func (s *Scanner) Scan() (tok Token, pos Pos, lit string) {
 		} else {
 			s.r.unread()
 		}
+		// a slash that follows an operand is a division, not the start of a regex
 		if s.preToken == 0 || s.preToken == RPAREN || s.preToken == IDENT || s.preToken == DURATION ||
-			s.preToken == INTEGER || s.preToken == NUMBER {
+			s.preToken == INTEGER || s.preToken == NUMBER || s.preToken == DURATIONVAL || s.preToken == STRING ||
+			s.preToken == TRUE || s.preToken == FALSE || s.preToken == TAG || s.preToken == FIELD {
 			return DIV, pos, ""
 		}
 		if comm, err = s.skipUntilEndRegex(); err != nil {
